@@ -39,9 +39,9 @@ def cases(tier, seed):
 
 
 def required(tier):
-    req = ['f4.' + o for o in ('mul', 'sqr', 'inv', 'inv/zero', 'mul_1', 'scale', 'scale_fq', 'nonres', 'unitary', 'add', 'sub', 'neg')]
+    req = ['f4.' + o for o in ('mul', 'sqr', 'inv', 'inv/zero', 'mul_1', 'scale', 'scale_fq', 'nonres', 'unitary', 'add', 'sub', 'neg', 'double', 'triple', 'is_zero')]
     req += ['f4.frob/%d' % k for k in F4_FROB]
-    req += ['f12.' + o for o in ('mul', 'sqr', 'inv', 'inv/zero', 'mul_015', 'scale', 'nonres', 'pow128', 'powfr', 'add', 'sub', 'neg')]
+    req += ['f12.' + o for o in ('mul', 'sqr', 'inv', 'inv/zero', 'mul_015', 'scale', 'nonres', 'pow128', 'powfr', 'add', 'sub', 'neg', 'double', 'triple', 'is_zero')]
     req += ['f12.frob/%d' % k for k in (1, 2, 3, 6)] + ['f12.mul/cancel', 'f4.mul/cancel']
     req += ['f12.fexp', 'f12.fexp2', 'f12.fexp/zero', 'f12.fexp2/zero', 'f12.first', 'f12.last1', 'f12.last2', 'f12.fexp/non-unitary', 'f12.fexp/subfield',
             'ml.jac', 'ml.prep', 'ml.agree', 'ml.jac/Q-aff', 'ml.jac/Q-scaled', 'ml.jac/Q-jac', 'carry.f4mul/0', 'carry.f4mul/1', 'carry.f4mul/2', 'class/sparse', 'class/unitary', 'class/max-carry',
@@ -173,6 +173,9 @@ def run(ctx, spec):
             add('_ f4.add %s %s' % (h4(x), h4(y)), 'f4.add', 'ok ' + h4(of4(fadd(X, Y))), ('f4add', x, y), ntx)
             add('_ f4.sub %s %s' % (h4(x), h4(y)), 'f4.sub', 'ok ' + h4(of4(fsub(X, Y))), ('f4sub', x, y), ntx)
             add('_ f4.neg %s' % h4(x), 'f4.neg', 'ok ' + h4(of4(fneg(X))), ('f4neg', x), ntx)
+            add('_ f4.double %s' % h4(x), 'f4.double', 'ok ' + h4(of4(fadd(X, X))), ('f4dbl', x), ntx)
+            add('_ f4.triple %s' % h4(x), 'f4.triple', 'ok ' + h4(of4(fadd(X, fadd(X, X)))), ('f4tpl', x), ntx)
+            add('_ f4.is_zero %s' % h4(x), 'f4.is_zero', 'bool ' + str(not any(flatx)).lower(), ('f4iz', x), ntx)
     elif kind == 'f12':
         for _ in range(3):
             a, ca = element12(rng)
@@ -205,6 +208,9 @@ def run(ctx, spec):
             add('_ f12.add %s %s' % (A, B), 'f12.add', 'ok ' + h12(fadd(a, b)), ('add', A, B), nz(a))
             add('_ f12.sub %s %s' % (A, B), 'f12.sub', 'ok ' + h12(fsub(a, b)), ('sub', A, B), nz(a))
             add('_ f12.neg %s' % A, 'f12.neg', 'ok ' + h12(fneg(a)), ('neg', A), nz(a))
+            add('_ f12.double %s' % A, 'f12.double', 'ok ' + h12(fadd(a, a)), ('dbl', A), nz(a))
+            add('_ f12.triple %s' % A, 'f12.triple', 'ok ' + h12(fadd(a, fadd(a, a))), ('tpl', A), nz(a))
+            add('_ f12.is_zero %s' % A, 'f12.is_zero', 'bool ' + str(not any(a)).lower(), ('iz', A), nz(a))
     elif kind == 'fexp':
         a, ca = element12(rng)
         ctx.classes['class/' + ca] += 1
